@@ -220,14 +220,21 @@ def f13_ambient(ctx, repo):
         fq = _func_qual_of(mod, c)
         kind = allowed.get((rel, fq))
         if kind == "guard":
-            conds = [norm(t) for t, pol in guard_conditions(c) if pol]
+            from ..cfg import implied_conditions as _ic
+
+            fobj = mod.func(fq)
+            facts = _ic(CFG(fobj.node), c)
+            conds = sorted(t for t, pol in facts if pol)
             ok = any(t.endswith(".recalcTimestamp") for t in conds)
             ctx.ob("F13b", f"{rel}:{fq}", "timestampNow() under " + " and ".join(conds), ok, "" if ok else "head.modified is restamped without the recalcTimestamp guard")
         elif kind == "shared":
             f = mod.func(fq)
             # the value `now` is stored into a font only under `if font.recalcTimestamp and ...`
             stores = [n for n in ast.walk(f.node) if isinstance(n, ast.Assign) and norm(n.value) == "now" and ".modified" in norm(n.targets[0])]
-            ok = bool(stores) and all(any("recalcTimestamp" in norm(t) for t, pol in guard_conditions(s) if pol) for s in stores)
+            from ..cfg import implied_conditions as _ic
+
+            gs = CFG(f.node)
+            ok = bool(stores) and all(any("recalcTimestamp" in t and pol for t, pol in _ic(gs, s_)) for s_ in stores)
             ctx.ob("F13b", f"{rel}:{fq}", "shared timestamp stored only under font.recalcTimestamp", ok)
         else:
             ctx.ob("F13b", f"{rel}:{fq}", "timestampNow()", kind is not None, ("audited: " + kind) if kind else "new caller of the clock")
@@ -239,7 +246,12 @@ def f13_ambient(ctx, repo):
     ok = bool(clock) and bool(envr) and all(g.dominates(g.id_of(envr[0]), g.id_of(c)) for c in clock)
     # the early return when the variable is set
     rets = [n for n in ast.walk(tn.node) if isinstance(n, ast.Return) and "source_date_epoch" in norm(n.value)]
-    ok = ok and bool(rets) and all(any(norm(t) == "source_date_epoch is not None" for t, pol in guard_conditions(r) if pol) for r in rets)
+    from ..cfg import implied_conditions as _ic
+
+    # the variable's value is returned only when it is set, and the clock is read only when it is not
+    var = next((norm(n.targets[0]) for n in ast.walk(tn.node) if isinstance(n, ast.Assign) and any(x is envr[0] for x in ast.walk(n.value))), "source_date_epoch") if envr else "source_date_epoch"
+    rets = [n for n in ast.walk(tn.node) if isinstance(n, ast.Return) and var in norm(n.value)]
+    ok = ok and bool(rets) and all((f"{var} is None", False) in _ic(g, r) for r in rets) and all((f"{var} is None", True) in _ic(g, c) for c in clock)
     ctx.ob("F13b", tn.where, "SOURCE_DATE_EPOCH read dominates time.time(); early return when set", ok)
 
 
